@@ -175,8 +175,28 @@ pub fn check_c18(bytes: &[u8], s: &NormalizerSettings, ms: &CharsetMatches, deep
                 let mut r = s.clone();
                 r.include_encodings = vec![e.clone()];
                 r.exclude_encodings = vec![];
-                if let Outcome::Err(msg) = run_real(bytes, &r) {
-                    out.push(v("C18", format!("reported name {} is rejected by the include list: {}", e, msg)));
+                match run_real(bytes, &r) {
+                    Outcome::Err(msg) => out.push(v("C18", format!("reported name {} is rejected by the include list: {}", e, msg))),
+                    // ... and accepted back AS THAT NAME: a run that includes only it reports nothing else (C05_membership),
+                    Outcome::Ok(res) => {
+                        for x in res.iter() {
+                            for n in x.suitable_encodings() {
+                                if n != e {
+                                    out.push(v("C18", format!("include list holding only the reported name {} yields {} (the name is taken for another encoding)", e, n)));
+                                }
+                            }
+                        }
+                    }
+                    Outcome::Panic(_) => {}
+                }
+                // a run that excludes only it never reports it
+                let mut x = s.clone();
+                x.include_encodings = vec![];
+                x.exclude_encodings = vec![e.clone()];
+                if let Outcome::Ok(res) = run_real(bytes, &x) {
+                    if res.iter().any(|y| y.suitable_encodings().iter().any(|n| *n == e)) {
+                        out.push(v("C18", format!("exclude list holding only the reported name {} still yields it", e)));
+                    }
                 }
             }
         }
